@@ -123,6 +123,15 @@ def main(argv=None):
             for v, o in zip(vi, outs[len(wit):]):
                 v.native = o; v.confirmed = (o.get('holds') is False) or ('panic' in o)
         elif viol: inconcl.append(native_note)
+    kani_results = []
+    if a.tier == 'thorough' and getattr(mod, 'KANI', None) and not a.only:
+        from mirsym import kani_runner
+        kani_results = kani_runner.run(mod.KANI)
+        for kr in kani_results:
+            if kr['verdict'] == 'failed':
+                v = type('V', (), {})(); v.job = 'kani:' + kr['harness']; v.label = 'Kani harness ' + kr['harness']; v.detail = kr['tail'][-300:]; v.model = {}; v.key = v.label; v.case = None
+                viol.append(v)
+            elif kr['verdict'] != 'successful': inconcl.append(f"Kani harness {kr['harness']} inconclusive: {kr['tail'][-200:]}")
     known = load_known(); new_viol = []; known_hit = []
     for v in viol:
         k = next((f for f in known if f.get('property') == pid and f.get('key') and f['key'] in (v.key + ' ' + v.detail + ' ' + json.dumps(getattr(v, 'case', None)))), None)
@@ -132,7 +141,7 @@ def main(argv=None):
         new_viol.append(v)
     wall = time.time() - t0
     ev = write_evidence(pid, a.tier, seed, mod, results, infos, wall, completed=completed, skipped=skipped, validated=validated,
-                        violations=new_viol, inconclusive=inconcl, index_s=t_ix, native_note=native_note, known=known_hit)
+                        violations=new_viol, inconclusive=inconcl, index_s=t_ix, native_note=native_note, known=known_hit, kani=kani_results)
     for k, v in {f['key']: (f, v) for f, v in known_hit}.values():
         print(f"KNOWN-FINDING: property={pid} {k.get('what', k['key'])}")
     tot_paths = sum(r.paths for r in results); tot_ob = sum(r.obligations for r in results); tot_d = sum(r.discharged for r in results)
@@ -163,7 +172,7 @@ def main(argv=None):
     return 0
 
 def write_evidence(pid, tier, seed, mod, results, infos, wall, completed=(), skipped=(), validated=0, violations=(), inconclusive=(), index_s=0,
-                   native_note=None, error=None, known=()):
+                   native_note=None, error=None, known=(), kani=()):
     touched = {}
     cov = set()
     for r in results:
@@ -191,6 +200,7 @@ def write_evidence(pid, tier, seed, mod, results, infos, wall, completed=(), ski
         mir=infos, index_load_s=round(index_s, 1), mirsym_code_hash=mirsym_hash(),
         inconclusive=list(inconclusive)[:20], native_note=native_note, known_findings_hit=[k['key'] for k, _ in known],
     )
+    if kani: coverage['kani_harnesses'] = list(kani)
     if hasattr(mod, 'extra_evidence'):
         try: coverage.update(mod.extra_evidence(results, tier))
         except Exception as ex: coverage['extra_evidence_error'] = str(ex)
